@@ -260,6 +260,10 @@ def generate(ctx):
     for lp in (0.0, 0, -0.5):
         c = {'cls': 'DiscreteKoyama', 'k': [0.1, 0.5, 1.0, 2.0], 'kgrid': 'log', 'N': 5, 'p': {'sigma': 1.0, 'l': 1.0, 'lp': lp}, 'invalid': True}
         ctx.case('eval', c, True, tags=['cls:DiscreteKoyama', 'invalid-params', 'lp:%r' % lp]); suite_eval(ctx, c)
+    # directed: long rings on full-length Domain grids (N * len(k) of several millions: any blocking / chunking of the pair sum must be complete)
+    for N, L in ([(5000, 1024), (2100, 2048)] if ctx.quick() else [(5000, 1024), (2100, 2048), (4100, 1024), (10000, 600), (3001, 1500)]):
+        c = {'cls': 'GaussianRing', 'k': [float(x) for x in pyPRISM.Domain(length=L, dr=0.1).k], 'kgrid': 'domain-dr', 'N': N, 'p': {'sigma': round(rng.uniform(0.5, 1.5), 4)}}
+        ctx.case('eval', c, True, tags=['cls:GaussianRing', 'k:domain-dr', 'long-ring']); suite_eval(ctx, c)
     for _ in range(ctx.n(500, 5000)):
         c = gen_case(rng, maxL, maxN, ctx.tier)
         N = c.get('N', 1)
